@@ -194,10 +194,13 @@ impl SwiftField for Field58 {
                 let field = Field58D::parse(value)?;
                 Ok(Field58::D(field))
             }
-            _ => {
-                // No variant specified, fall back to default parse behavior
+            None | Some("") => {
+                // No option letter given: fall back to default parse behavior
                 Self::parse(value)
             }
+            Some(other) => Err(ParseError::InvalidFormat {
+                message: format!("Option {} is not allowed for this field", other),
+            }),
         }
     }
 
